@@ -1203,6 +1203,11 @@ def life_names():
 
 
 _LIFE = {}
+# quick tier: depth 4 for one class per native implementation family, depth 3 for the rest
+LIFE_PRIMARY = ("hash:SHA256", "hash:SHA3-256", "hash:SHAKE128", "hash:BLAKE2b-512", "hash:MD5", "hash:HMAC-SHA256",
+                "hash:CMAC-AES", "hash:Poly1305-ChaCha20", "hash:KMAC128", "blk:AES-CBC", "blk:AES-CTR", "blk:DES3-CFB",
+                "blk:AES-ECB-noaesni", "stream:ChaCha20-12", "aead:AES-GCM", "aead:AES-OCB", "aead:AES-EAX", "aead:AES-SIV",
+                "aead:AES-CCM", "aead:ChaCha20_Poly1305-CHAPOLY", "point:p256", "point:ed25519", "point:curve25519")
 
 
 @family("life")
@@ -1214,7 +1219,7 @@ class Life(object):
     @staticmethod
     def gen(shard, tier):
         name = shard[1]
-        depth = 4
+        depth = 4 if (tier == "thorough" or name in LIFE_PRIMARY) else 3
         out = []
         for d in range(1, depth + 1):
             for h in itertools.product(range(len(LIFE_OPS)), repeat=d):
